@@ -1,4 +1,5 @@
 import Posmint.Driver.Arith
+import Posmint.Driver.KV
 /-!
 `posmodel <family>`: reads one operation per line on stdin, prints one observation per line.
 Core-only (no Mathlib) so it links as a native executable.
@@ -11,9 +12,17 @@ partial def loopStateless (h : IO.FS.Stream) (out : IO.FS.Stream) (f : List Stri
   out.putStrLn (f (words (line.trimAscii.toString)))
   loopStateless h out f
 
+partial def loopState {σ : Type} (h : IO.FS.Stream) (out : IO.FS.Stream) (f : σ → List String → σ × String) (s : σ) : IO Unit := do
+  let line ← h.getLine
+  if line.isEmpty then return ()
+  let (s', o) := f s (words (line.trimAscii.toString))
+  out.putStrLn o
+  loopState h out f s'
+
 def main (args : List String) : IO UInt32 := do
   let stdin ← IO.getStdin
   let stdout ← IO.getStdout
   match args with
   | ["arith"] => loopStateless stdin stdout stepArith; return 0
-  | _ => IO.eprintln "usage: posmodel <arith>"; return 2
+  | ["kv"] => loopState stdin stdout stepKV (newProg 0); return 0
+  | _ => IO.eprintln "usage: posmodel <arith|kv>"; return 2
